@@ -94,11 +94,12 @@ inductive Refusal where
   | fixedButNoLandmarks         -- validate_gp_type, FIXED
   | nystroemNeedsReduction      -- validate_rank_params, full rank indicated for a Nyström type
   | rankIndicatesNystroem       -- validate_rank_params, reduction indicated for a non-Nyström type
+  | rankNegative                -- validate_rank_params, rank < 0
   | nLandmarksOne               -- compute_landmarks
   | tooFewSamples               -- nearest-neighbour stage (KDTree k=2) with fewer than 2 cells
-  | emptyFactor                 -- a negative integer rank removed every column (Ridge refuses 0 features)
+  | emptyFactor                 -- a factor without columns (Ridge refuses 0 features; unreachable since negative ranks are refused)
   | noInputUncertainty          -- _sigma_to_y_cov_factor(None, None, ·)
-  | sigmaShape                  -- function estimator: noise array incompatible with the factor
+  | sigmaShape                  -- function estimator: negative / more than 1-D sigma, per-cell sigma with m ≠ n landmarks
   deriving Repr, DecidableEq
 
 inductive PredFamily where
@@ -197,8 +198,14 @@ def rankIndicatesFull (gp : GPType) (n : Nat) (rank : RankV) (nl : Nat) : Bool :
       | .fixed => false) || decide (r = 0)
   | .flt q => decide (q ≥ 1) || decide (q = 0)
 
+/-- `rank < 0` for a validated rank. -/
+def RankV.isNegative : RankV → Bool
+  | .int r => decide (r < 0)
+  | .flt q => decide (q < 0)
+
 def validateRankParams (gp : GPType) (n : Nat) (rank : RankV) (nl : Nat) : Except Refusal Unit :=
-  if rankIndicatesFull gp n rank nl then
+  if rank.isNegative then .error .rankNegative
+  else if rankIndicatesFull gp n rank nl then
     (match gp with
       | .fullNystroem => .error .nystroemNeedsReduction
       | .sparseNystroem => .error .nystroemNeedsReduction
@@ -306,6 +313,10 @@ inductive SigmaForm where
   | matN (k : Nat)    -- (n, k) array
   deriving Repr, DecidableEq
 
+def SigmaForm.isMat : SigmaForm → Bool
+  | .matN _ => true
+  | _ => false
+
 structure Config where
   est : Est
   n : Nat                         -- number of cells
@@ -382,40 +393,56 @@ def resolveDensityLike (c : Config) : Outcome :=
         if c.withUnc ∧ c.opt ≠ Opt.advi then .refused .noInputUncertainty
         else .ok r.gp rows cols (predictorClass r.gp lm cols)
 
-/-- `FunctionEstimator.compute_conditional`: `FullConditional(x, y, …, sigma)` without landmarks,
-    `LandmarksConditional(x, xu, y, …, sigma)` with `m` landmarks (never the Cholesky-latent class:
-    there is no latent vector).  `_sigma_to_y_cov_factor(sigma, None, rows)` builds the noise factor
-    for `rows = n` resp. `rows = m`; a factor whose size differs from the matrix it is added to /
-    multiplied with makes JAX raise `TypeError` (shape error) — `.internal`. -/
-def functionPredictor (gp : GPType) (n : Nat) (lm : Option Nat) (withUnc : Bool) (sigma : SigmaForm) :
-    Outcome :=
-  match lm with
-  | none =>
-    (match sigma with
-      | .matN _ => .internal                       -- 3-D factor: `M.dot(M.T)` shape error
-      | _ => .ok gp n n .full)
-  | some m =>
-    (match sigma with
-      | .scalar => if withUnc ∧ m ≠ n then .internal else .ok gp n m .landmarks
-      | .vecN => if m ≠ n then .internal else .ok gp n m .landmarks
-      | .matN _ => if m = n then .internal else .refused .sigmaShape
-      | .negative => .refused .sigmaShape)
+/-- The predictor family that belongs to a GP type in the function estimator, which has no latent
+    vector: the sparse types condition `LandmarksConditional` on `(x, y)` directly. -/
+def GPType.functionFamily : GPType → PredFamily
+  | .full => .full
+  | .fullNystroem => .full
+  | _ => .landmarks
 
-/-- `FunctionEstimator`: no rank, no `validate_params`; the predictor is built from `(x, y)` directly,
-    so there is no latent factor (`cols` reports the number of conditioning points). -/
+/-- Family of the type for a given estimator. -/
+def GPType.familyFor (est : Est) (gp : GPType) : PredFamily :=
+  if est = .function then gp.functionFamily else gp.family
+
+/-- `FunctionEstimator.compute_conditional`: for `FULL` (/`FULL_NYSTROEM`) `landmarks=None` is passed,
+    so `FullConditional(x, y, …, sigma)`; otherwise `FullConditional` without landmarks and
+    `LandmarksConditional(x, xu, y, …, sigma)` with `m` landmarks (never the Cholesky-latent class:
+    there is no latent vector).  A scalar `sigma` fits every size (the factor for the mean has one row
+    per landmark, the one for the uncertainty one row per cell); a per-cell `sigma` with `m ≠ n`
+    landmarks is refused by `_LandmarksConditional`. -/
+def functionPredictor (gp : GPType) (n : Nat) (lm : Option Nat) (sigma : SigmaForm) : Outcome :=
+  if gp = .full ∨ gp = .fullNystroem then .ok gp n n .full
+  else
+    match lm with
+    | none => .ok gp n n .full
+    | some m =>
+      (match sigma with
+        | .vecN => if m ≠ n then .refused .sigmaShape else .ok gp n m .landmarks
+        | _ => .ok gp n m .landmarks)
+
+/-- `FunctionEstimator`: the constructor fixes `rank = 1.0`, refuses a negative or more than
+    one-dimensional `sigma` and the Nyström types; `prepare_inference` resolves `n_landmarks`,
+    `gp_type` and calls `validate_parameter()` like the other estimators; the predictor is built from
+    `(x, y)` directly, so there is no latent factor (`cols` = number of conditioning points). -/
 def resolveFunction (c : Config) : Outcome :=
   match initNLandmarks c.nLandmarks, initGpType c.gpType with
   | .error e, _ => .refused e
   | _, .error e => .refused e
-  | .ok nlUser, .ok gpUser =>
-    if c.sigma = .negative then .refused .sigmaShape else
+  | .ok _, .ok gpUser =>
+    if c.sigma = .negative ∨ c.sigma.isMat then .refused .sigmaShape else
     if gpUser = some .fullNystroem ∨ gpUser = some .sparseNystroem then .refused .functionNystroem else
-    let nl := nlUser.getD (computeNLandmarks gpUser c.n c.landmarks)
-    let gp := gpUser.getD (gpTypeOf nl none c.n)
-    if c.n < 2 then .refused .tooFewSamples else
-    match landmarksStep c.landmarks gp c.n nl with
+    match prepare { c with rank := .flt 1 } with
     | .error e => .refused e
-    | .ok lm => functionPredictor gp c.n lm c.withUnc c.sigma
+    | .ok r =>
+      if c.n < 2 then .refused .tooFewSamples else
+      match landmarksStep c.landmarks r.gp c.n r.nl with
+      | .error e => .refused e
+      | .ok lm => functionPredictor r.gp c.n lm c.sigma
+
+/-- The configuration whose triple `prepare` resolves: the function estimator's rank is the
+    constructor's `1.0`. -/
+def effConfig (c : Config) : Config :=
+  if c.est = .function then { c with rank := .flt 1 } else c
 
 def resolve (c : Config) : Outcome :=
   match c.est with
